@@ -276,15 +276,15 @@ impl Sphere3D {
         let hit_x = phit.x;
         let hit_y = phit.y;
         let hit_z = phit.z;
-        // let zrad = (phit.x*phit.x + phit.y*phit.y).sqrt();
-        // let inv_zrad = 1./zrad;
+        // distance to the polar axis: never zero, because hits on the axis have been nudged away from it
+        let zrad = (phit.x * phit.x + phit.y * phit.y).sqrt();
+        let inv_zrad = 1. / zrad;
 
         let cos_theta = (hit_z / self.radius).clamp(-1., 1.);
         let theta = cos_theta.acos();
         let sin_theta = theta.sin();
-        let one_over_r_sin_theta = 1. / self.radius / sin_theta;
-        let cos_phi = hit_x * one_over_r_sin_theta;
-        let sin_phi = hit_y * one_over_r_sin_theta;
+        let cos_phi = hit_x * inv_zrad;
+        let sin_phi = hit_y * inv_zrad;
 
         // Calculate (u,v)
         let u = phi / self.phi_max;
